@@ -21,10 +21,14 @@ func main() {
 	if r.Replay != "" {
 		var c schedrun.ReplayCase
 		r.LoadReplay(&c)
-		if c.Kind == "frozen" {
+		if c.Kind == "frozen" || c.Kind == "derivation" {
 			var fc frozenCase
 			r.LoadReplay(&fc)
-			frozenStage(r, fc.Object)
+			if c.Kind == "derivation" {
+				derivationStage(r)
+			} else {
+				frozenStage(r, fc.Object)
+			}
 			r.StatesAdd(1)
 			r.Transitions(1)
 			r.Sample(fc)
